@@ -160,6 +160,8 @@ func (g *VCGen) initDeferFlags() {
 }
 
 func (g *VCGen) runDefers(x *ssa.RunDefers) {
+	g.inRunDefers = true
+	defer func() { g.inRunDefers = false }()
 	for i := len(g.deferred) - 1; i >= 0; i-- {
 		d := g.deferred[i]
 		if !d.Block().Dominates(x.Block()) {
